@@ -265,8 +265,99 @@ def run_adaptive(case):
     raise ValueError(mode)
 
 
+def encode_post(sf, case):
+    kind = case["kind"]
+    if case["strat"] == "filter":
+        return {"pm": raw_normal_blocks(sf, kind), "cond": None}
+    return {"pm": raw_normal_blocks(sf.marginal, kind), "cond": raw_cond_blocks(sf.conditional, kind)}
+
+
+def run_interp(case):
+    """solver.interpolate_fwd / interpolate_fwd_at_t1 between manually stepped states."""
+    kind = case["kind"]
+    ssm = gimpl.ssm_of(kind)
+    vf = make_vf(case)
+    prior = make_prior(case, ssm)
+    solver, _ = make_solver(case, ssm, vf)
+    grid = case["grid"]
+    damp = case["damp"]
+    state = solver.init(t=jnp.asarray(grid[0]), u=prior, damp=damp)
+    raw = [state]
+    for i in range(len(grid) - 1):
+        state = solver.step(state, dt=grid[i + 1] - grid[i], damp=damp)
+        raw.append(state)
+    out = {"states": [encode_state(s_, case) for s_ in raw], "interps": []}
+    for k, t in case["interp_at"]:
+        ip, res = solver.interpolate_fwd(t=jnp.asarray(t), interp_from=raw[k], interp_to=raw[k + 1])
+        out["interps"].append({"k": k, "t": t, "interpolated": encode_post(ip.solution_full, case),
+                               "u": raw_normal_blocks(ip.u, kind),
+                               "step_from": encode_post(res.step_from.solution_full, case),
+                               "interp_from": encode_post(res.interp_from.solution_full, case),
+                               "times": [float(ip.t), float(res.step_from.t), float(res.interp_from.t)]})
+    return out
+
+
+class ScriptedControl:
+    def __init__(self, dts):
+        self.dts = arr(dts)
+
+    def init(self, dt):
+        return jnp.asarray(0)
+
+    def apply(self, dt, state, *, error_power):
+        idx = state + 1
+        return self.dts[jnp.minimum(idx, self.dts.shape[0] - 1)], idx
+
+
+class AcceptAll:
+    def init_error(self):
+        return ()
+
+    def estimate_error_norm(self, state, previous, proposed, *, dt, atol, rtol, damp):
+        return jnp.ones(()), state
+
+
+def run_scripted(case):
+    """The real solve_adaptive_save_at (or save-every-step + offgrid marginals) forced onto a prescribed
+    step sequence by a scripted controller / accept-all error estimate."""
+    kind = case["kind"]
+    ssm = gimpl.ssm_of(kind)
+    vf = make_vf(case)
+    prior = make_prior(case, ssm)
+    solver, _ = make_solver(case, ssm, vf)
+    sc = case["scripted"]
+    dts = sc["dts"]
+    damp = case["damp"]
+    ctrl = ScriptedControl(dts)
+    if sc["mode"] == "save_at":
+        solve = ivpsolve.solve_adaptive_save_at(solver=solver, error=AcceptAll(), control=ctrl, clip_dt=False, warn=False)
+        sol = jax.jit(lambda: solve(prior, save_at=arr(sc["save_at"]), atol=1.0, rtol=1.0, dt0=dts[0], damp=damp, eps=sc.get("eps", 1e-8)))()
+        res = solution_summary(sol, case)
+    else:
+        solve = test_util.solve_adaptive_save_every_step(solver=solver, error=AcceptAll(), control=ctrl, clip_dt=False)
+        sol = solve(prior, t0=sc["save_at"][0], t1=sc["save_at"][-1], atol=1.0, rtol=1.0, dt0=dts[0], damp=damp, eps=sc.get("eps", 1e-8))
+        res = solution_summary(sol, case)
+        ts = arr(sc["offgrid"])
+        og = jax.vmap(lambda t: solver.offgrid_marginals(t, solution=sol))(ts)
+        o = []
+        for blocks in batched_normal_blocks(og, kind):
+            o += gimpl.flat_blocks_normal(blocks)
+        res["offgrid"] = o
+    # filtering states at the step ends, by manual stepping with a FILTER solver of the same configuration
+    fcase = dict(case)
+    fcase["strat"] = "filter"
+    fsolver, _ = make_solver(fcase, ssm, vf)
+    state = fsolver.init(t=jnp.asarray(sc["save_at"][0]), u=prior, damp=damp)
+    states = [encode_state(state, fcase)]
+    for dt in sc["steps_taken"]:
+        state = fsolver.step(state, dt=dt, damp=damp)
+        states.append(encode_state(state, fcase))
+    res["states"] = states
+    return res
+
+
 ROUTINES = {"fixed_grid": lambda c: run_fixed_grid(c)[0], "trajectory": run_trajectory, "error": run_error,
-            "adaptive": run_adaptive}
+            "adaptive": run_adaptive, "interp": run_interp, "scripted": run_scripted}
 
 
 def main():
